@@ -51,14 +51,14 @@ def run(ctx):
         n9 = engine.take_over(ctx, c3.obs, lambda o: o.rule == "C12.1" and o.key.split("|")[-1] in ("table", "atoms", "haystack"), "C07.9")
         ctx.floor("C07.9 obligations taken from the keep-alive table", n9, 2)
     except CheckerError as e:
-        ctx.ob("C07.9", "keep-alive-table", "the parser's keep-alive decision could be extracted", False, "client.rs", str(e))
+        raise CheckerError("C07.9 (the parser's keep-alive decision could not be extracted): %s" % e)
     # ---- C07.10 an accepted connection gets a thread that reads it (otherwise its requests are never parsed, let alone delivered): the
     # dispatch rule of the worker pool (C08.1), taken over
     import pool_rules as PR_
     try:
         PR_.rule_dispatch(ctx, "C07.10")
     except CheckerError as e:
-        ctx.ob("C07.10", "dispatch", "the worker pool's dispatch could be evaluated", False, "task_pool.rs", str(e))
+        raise CheckerError("C07.10 (the worker pool's dispatch could not be evaluated): %s" % e)
     msg, shapes = S.message_shapes(facts)
     for tr in (T_CLONE, T_COPY):
         ctx.ob("C07.7", "noimpl|%s|%s" % (tr, REQ), "a Request cannot be duplicated, so at most one receiver obtains it", not facts.has_impl(tr, REQ), REQ)
